@@ -3,11 +3,12 @@ package render
 import (
 	"bufio"
 	"context"
-	"path/filepath"
 	"errors"
 	"fmt"
 	"io"
 	"math/rand/v2"
+	"os"
+	"path/filepath"
 	"sort"
 	"strings"
 
@@ -307,6 +308,61 @@ func c10World(rc *kernel.RunCtx) {
 			if !check(fmt.Sprintf("writer-%s@%d", kind, at), o, cause, must) || !after("writer "+kind) {
 				break
 			}
+		}
+	}
+	// development mode: the literals come from text files. A disk fault (the files are unreachable
+	// for a while) may fail renders; it must not alter renders after the files are back.
+	if !rc.Failed() && t.Chance(1, 4, "devmode-disk-fault") {
+		if err := ensureDevModeFiles(); err != nil {
+			rc.Fail("harness", "dev mode files: %v", err)
+		} else {
+			cold := t.Bool("cold-cache")
+			if cold {
+				coldDevCache()
+			}
+			templruntime.SetDevelopmentMode(true)
+			devRender := func() outcome {
+				return renderOnce(u, spec, knobs{BufSize: kn.BufSize}, Fault{}, -1, -1, false, nil, nil)
+			}
+			ref := outcome{}
+			if !cold || t.Bool("render-before-fault") {
+				ref = devRender()
+				if ref.err != nil {
+					rc.Fail("C10/devmode-render-error", "development-mode render of %s: %v", spec, ref.err)
+				}
+			}
+			if !rc.Failed() {
+				aside := devModeRoot + ".aside"
+				if err := os.Rename(devModeRoot, aside); err != nil {
+					rc.Fail("harness", "%v", err)
+				} else {
+					for i, n := 0, t.Range(1, 2, "renders-while-gone"); i < n; i++ {
+						o := devRender()
+						evals++
+						if o.err != nil {
+							k.Count("fault_devmode_text_files_unreachable_render_failed", 1)
+							if !isPrefix(o.got, D) {
+								rc.Fail("C10/not-a-prefix:devmode-disk-fault", "text files unreachable, render of %s failed with %v and wrote %q, not a prefix of the document", spec, o.err, kernel.Short(string(o.got), 200))
+							}
+						} else if string(o.got) != string(D) {
+							rc.Fail("C10/nil-but-not-exact:devmode-disk-fault", "text files unreachable, render of %s returned nil but wrote %q", spec, kernel.Short(string(o.got), 200))
+						}
+					}
+					if err := os.Rename(aside, devModeRoot); err != nil {
+						rc.Fail("harness", "%v", err)
+					}
+					k.Count("fault_devmode_text_files_unreachable", 1)
+					for i := 0; i < 2 && !rc.Failed(); i++ {
+						o := devRender()
+						if o.err != nil {
+							rc.Fail("C10/later-render-error", "development mode: the text files were unreachable for a while and are back unchanged; render %d of %s afterwards returned %v", i, spec, o.err)
+						} else if string(o.got) != string(D) {
+							rc.Fail("C10/later-render-altered", "development mode: the text files were unreachable for a while and are back unchanged; render %d of %s afterwards wrote %q, want %q", i, spec, kernel.Short(string(o.got), 200), kernel.Short(string(D), 200))
+						}
+					}
+				}
+			}
+			templruntime.SetDevelopmentMode(false)
 		}
 	}
 	// a caller-owned *bufio.Writer that outlives several renders, with renders elsewhere in between
